@@ -159,6 +159,21 @@ func (c01) Gen(r *kern.Rng, tier string, idx int) *Trace {
 	}
 	sc := genFlateW(r, maxLen)
 	sc.Ops = GenOps(r, sc.Data.Len, r.Pick(0, 0, 10, 30, 60), 200)
+	if r.Pct(8) && sc.Data.Len > 10 {
+		// the Writer had an earlier life that was abandoned (no Close, possibly in the middle of a block) and was
+		// Reset onto a new destination: what it emits there until Close returns nil must be one complete stream too
+		n1 := r.Pick(66000, 70000, 140000, 1+r.Intn(sc.Data.Len))
+		if n1 > sc.Data.Len/2 {
+			n1 = sc.Data.Len / 2
+		}
+		pre := []scen.WOp{{K: "w", N: n1}}
+		if r.Pct(30) {
+			pre = append(pre, scen.WOp{K: "f"}, scen.WOp{K: "w", N: r.Intn(1 + n1/4)})
+		}
+		pre = append(pre, scen.WOp{K: "r"})
+		sc.Ops = append(pre, GenOps(r, sc.Data.Len-sumWrites(pre), r.Pick(0, 0, 10, 30), 100)...)
+		return &Trace{Property: "C01", Family: "W-plain(after an abandoned earlier life)", W: sc}
+	}
 	return &Trace{Property: "C01", Family: "W-plain", W: sc}
 }
 
@@ -189,10 +204,14 @@ func (c01) Exec(tr *Trace, keep bool) *Outcome {
 		o.stat("runs_with_error_from_accepting_sink", 1)
 		return o
 	}
-	if n := len(sc.Ops); n == 0 || sc.Ops[n-1].K != "c" || countOps(sc.Ops, "c") != 1 || countOps(sc.Ops, "r") != 0 {
+	if n := len(sc.Ops); n == 0 || sc.Ops[n-1].K != "c" || countOps(sc.Ops, "c") != 1 {
 		return o // the statement is about the bytes emitted once (the one) Close returned nil
 	}
-	seg := rec.Segs[0]
+	// (Reset before that Close: an abandoned earlier life; the destination in force at Close is judged)
+	seg := rec.Segs[len(rec.Segs)-1]
+	if countOps(sc.Ops, "r") > 0 {
+		o.stat("runs_after_an_abandoned_earlier_life", 1)
+	}
 	orc, det, rr := checkStream(seg.Sink.Data, seg.Model, dictOf(sc), 0)
 	reachW(o, rr, sc, total)
 	o.stat("class_"+feat["class"], 1)
@@ -201,7 +220,11 @@ func (c01) Exec(tr *Trace, keep bool) *Outcome {
 	}
 	if orc != "" {
 		if !sc.Accelerated() {
-			feat["same_as_stdlib_writer"] = fmt.Sprint(sameAsStdlib(sc, seg.Sink.Data))
+			if countOps(sc.Ops, "r") > 0 {
+				feat["same_as_stdlib_writer"] = fmt.Sprint(sameAsStdlibSeg(sc, -2))
+			} else {
+				feat["same_as_stdlib_writer"] = fmt.Sprint(sameAsStdlib(sc, seg.Sink.Data))
+			}
 		}
 		o.violate(tr, "C01."+orc, det, feat)
 	}
